@@ -9,7 +9,9 @@ pub mod c07;
 pub mod c08;
 pub mod c09;
 pub mod c10;
+pub mod c11;
 pub mod c14;
+pub mod c16;
 
 #[derive(Clone, Debug)]
 pub struct Ctx {
@@ -39,7 +41,9 @@ pub fn run(id: &str, ctx: &Ctx) -> i32 {
         "C08" => c08::run08(ctx),
         "C09" => c09::run(ctx),
         "C10" => c10::run(ctx),
+        "C11" => c11::run(ctx),
         "C14" => c14::run(ctx),
+        "C16" => c16::run16(ctx),
         _ => {
             eprintln!("unknown property {id}");
             2
